@@ -199,6 +199,8 @@ pub struct Mach {
     m: Option<Box<Machine>>,
     pub queries: u64,
     pub poisoned: bool,
+    /// the machine as a panic left it (never run again, never dropped; read-only diagnostics)
+    corpse: Option<ManuallyDrop<Box<Machine>>>,
 }
 
 pub const HELPERS: &str = include_str!("helpers.pl");
@@ -212,11 +214,49 @@ impl Mach {
             m: Some(m),
             queries: 0,
             poisoned: false,
+            corpse: None,
         }
     }
 
     pub fn machine(&mut self) -> &mut Machine {
         self.m.as_mut().expect("machine poisoned")
+    }
+
+    /// After a tick-budget panic: where the machine was looping. Returns (site key, detail):
+    /// the key is the sorted set of predicates owning the last traced code addresses.
+    pub fn hang_site(&self) -> Option<(String, String)> {
+        let m = self.corpse.as_ref()?;
+        let trace = vh::p_trace();
+        if trace.is_empty() {
+            return None;
+        }
+        let mut preds: Vec<String> = vec![];
+        let mut detail = String::new();
+        let mut cache: std::collections::BTreeMap<usize, String> = Default::default();
+        // compress consecutive repeats
+        let mut runs: Vec<(usize, usize)> = vec![];
+        for a in trace.iter() {
+            match runs.last_mut() {
+                Some((x, n)) if *x == *a => *n += 1,
+                _ => runs.push((*a, 1)),
+            }
+        }
+        // the loop is what the tail of the trace shows: predicates of the last 64 addresses
+        for a in trace.iter().rev().take(64) {
+            let who = cache.entry(*a).or_insert_with(|| vh::predicate_at(m, *a)).clone();
+            if !preds.contains(&who) {
+                preds.push(who);
+            }
+        }
+        let skip = runs.len().saturating_sub(40);
+        for (a, n) in runs.iter().skip(skip) {
+            let who = cache.entry(*a).or_insert_with(|| vh::predicate_at(m, *a)).clone();
+            let mut t = vh::instr_text(m, *a);
+            t.truncate(100);
+            detail.push_str(&format!("\n      {a} x{n} {who} {t}"));
+        }
+        preds.sort();
+        Some((preds.join("+"), detail))
     }
 
     pub fn alive(&self) -> bool {
@@ -290,7 +330,7 @@ impl Mach {
             out.panic = Some(p.text());
             self.poisoned = true;
             // state is undefined after a panic; never run its destructors
-            std::mem::forget(mbox);
+            self.corpse = Some(ManuallyDrop::new(mbox));
         } else {
             self.m = Some(mbox);
         }
